@@ -811,6 +811,10 @@ static PyObject* base_syrk(PyObject *self, PyObject *args, PyObject *kwrds)
 #endif
   } else {
 
+    if (!sp_syrk[id])
+      PY_ERR(PyExc_NotImplementedError,
+          "syrk is not implemented for complex sparse matrices");
+
     void *z = NULL;
 #if PY_MAJOR_VERSION >= 3
     if (sp_syrk[id](uplo_, trans_,
